@@ -291,6 +291,19 @@ class Result:
 CERT_MODULES = ['BridgePaths', 'C02Bridge', 'C03Bridge', 'C13Proofs', 'FactorI', 'FactorU', 'PathGrammarInst', 'PctWf', 'ValidSetInst']
 CERT_RECORD = os.path.join(VERIF, 'coqchk_certs.json')
 
+def coqchk_clean(rc, txt):
+    """coqchk verdict: exit 0, no type-in-type / unsafe fixpoints / assumed positivity, and no axiom other than the fields of the standard
+    library's sealed module Coq.ssr.ssrunder.Under_rel (coqchk lists these opaque module fields as 'axioms' as soon as some module is
+    passed with -admit; they are part of Coq's ssreflect prelude, not declarations of this development)."""
+    if rc != 0 or not re.search(r'type-in-type:\s*<none>', txt) or not re.search(r'unsafe \(co\)fixpoints:\s*<none>', txt) or not re.search(r'positivity is assumed:\s*<none>', txt):
+        return False
+    m = re.search(r'\* Axioms:(.*?)\n\s*\n\* ', txt, flags=re.S)
+    if not m:
+        return False
+    names = [x.strip() for x in m.group(1).split('\n') if x.strip()]
+    names = [x for x in names if x != '<none>' and not x.startswith('Coq.ssr.ssrunder.Under_rel.')]
+    return not names
+
 def coq_deps(name, seen=None):
     """transitive V.* dependencies of coq/<name>.v (names without prefix), from its Require lines"""
     seen = set() if seen is None else seen
@@ -388,7 +401,7 @@ def props_check(R, name, extra_targets=()):
             cmd += ['-admit', 'V.' + m]
         rc2, o2, e2 = sh(cmd + ['V.' + name], cwd=COQ, timeout=6000, check=False)
         txt = o2 + e2
-        clean = rc2 == 0 and re.search(r'Axioms:\s*<none>', txt) and re.search(r'type-in-type:\s*<none>', txt) and re.search(r'unsafe \(co\)fixpoints:\s*<none>', txt) and re.search(r'positivity is assumed:\s*<none>', txt)
+        clean = coqchk_clean(rc2, txt)
         cert = coqchk_certs(admit)
         R.extra['coqchk'] = {'module': 'V.' + name, 'rc': rc2, 'axioms_none': bool(clean), 'admitted_here_and_checked_separately': admit, 'certificate_modules': cert}
         R.cov['checker_cmd'] += 'coqchk -o -silent -Q /verif/coq V %s V.%s; certificate modules: %s; ' % (' '.join('-admit V.' + m for m in admit), name, cert.get('how'))
